@@ -1,7 +1,10 @@
 """C01 — conversions between representations preserve the tensor."""
 from __future__ import annotations
 
+import contextlib
 import itertools
+import logging
+import warnings
 
 import numpy as np
 import pyttb as ttb
@@ -15,6 +18,12 @@ RULE = ("dense and sparse tensors (sparsity classes empty/one/some/all, stored o
         "and Kruskal tensors (ranks 1..3, weights of both signs and zero) on shapes of order 1..4 with distinct, "
         "repeated and singleton extents; for matricization every ordered partition of the modes for N<=3 (quick) "
         "/ N<=4 (thorough) incl. an empty side, plus the fc / bc / t conventions and malformed splits; "
+        "every conversion also on operands with a history, enumerated: dense tensors grown by subscript / region / "
+        "subscript-array assignment (one mode, all modes, a new trailing mode), filled from empty, written in place, "
+        "permuted, built from F / C / transposed / strided / negative-stride arrays of float64 / int / bool / float32 "
+        "with and without copying, comparison results (bool), or with .data re-pointed (layout of .data tagged F / C / FC / neither); sparse tensors "
+        "filled entry by entry in unsorted order, overwritten, deleted from, grown, or taken from a grown dense tensor; "
+        "tenmat / sptenmat wrapped around user arrays in those layouts; Kruskal / Tucker / sum tensors over such components; "
         "non-trivial = accepted and more than one cell; distinct = distinct case hash")
 ASSUMPTIONS = ["np.nonzero scans in C order of the F-order ravel = first index fastest; linear-index assignment "
                "through tensor.__setitem__ has last-write-wins semantics"]
@@ -390,5 +399,1054 @@ class KruskalFull(Family):
         return out
 
 
+# ---------------------------------------------------------------------------------------------
+# Operands produced by EARLIER OPERATIONS (not handed straight to a constructor)
+#
+# A conversion has to preserve what its operand denotes whatever the history of the operand: a
+# dense tensor enlarged by assignment past its extent holds a freshly allocated, C-ordered
+# buffer; a tensor built from a transposed / strided view or with copy=False, a sparse tensor
+# filled entry by entry in arbitrary order, a tenmat / sptenmat wrapped around user arrays are
+# all legitimate operands.  A case below is a *recipe* (JSON) for such an operand plus one
+# conversion.  What the operand denotes is book-kept independently by `_Sim` from the LOGICAL
+# subscripts of the recipe (a dict subscript -> value; nothing in it knows a memory order) and
+# is cross-checked against element-by-element subscript reads of the real operand; the
+# conversion's result is compared with that reference and with the proved Lean model (which is
+# layout-free) through the driver ops of the constructor-fed families above.
+# ---------------------------------------------------------------------------------------------
+_DT = {"f8": np.float64, "f4": np.float32, "i8": np.int64, "i4": np.int32, "b1": np.bool_}
+
+
+def _flags(a):
+    f, c = bool(a.flags["F_CONTIGUOUS"]), bool(a.flags["C_CONTIGUOUS"])
+    return "FC" if f and c else "F" if f else "C" if c else "neither"
+
+
+@contextlib.contextmanager
+def _quiet():
+    logging.disable(logging.WARNING)
+    try:
+        with warnings.catch_warnings():
+            warnings.simplefilter("ignore")
+            yield
+    finally:
+        logging.disable(logging.NOTSET)
+
+
+def laid_out(shape, data, lay="F", dtype="f8"):
+    """ndarray whose LOGICAL entries are `data` (listed first subscript fastest) held in memory
+    layout `lay`.  Filled entry by entry through subscripts: independent of any memory order."""
+    dt = _DT[dtype]
+    shape = tuple(int(x) for x in shape)
+    N = len(shape)
+    if lay == "F":
+        a = np.zeros(shape, dtype=dt, order="F")
+    elif lay == "C":
+        a = np.zeros(shape, dtype=dt, order="C")
+    elif lay == "T":  # transposed view (first two axes swapped) of a C-ordered buffer
+        if N < 2:
+            a = np.zeros(shape, dtype=dt)
+        else:
+            p = [1, 0] + list(range(2, N))
+            a = np.zeros(tuple(shape[k] for k in p), dtype=dt, order="C").transpose(p)
+    elif lay == "strided":  # every second cell of a buffer twice as large in every mode; junk in between
+        a = np.full(tuple(2 * x for x in shape), 77, dtype=dt)[tuple(slice(1, None, 2) for _ in shape)]
+    elif lay == "neg":  # negative strides
+        a = np.zeros(shape, dtype=dt)[tuple(slice(None, None, -1) for _ in shape)]
+    else:
+        raise ValueError(lay)
+    assert a.shape == shape
+    for i, v in zip(gen.all_subs(list(shape)), data):
+        a[tuple(i)] = v
+    return a
+
+
+def f_unindex(shape, k):
+    out = []
+    for s in shape:
+        out.append(k % s)
+        k //= s
+    return out
+
+
+class _Sim:
+    """What a history of assignments denotes: a shape and a dict subscript -> value (absent = 0)."""
+
+    def __init__(self, shape=(), cells=None):
+        self.shape = [int(x) for x in shape]
+        self.cells = dict(cells or {})
+
+    @classmethod
+    def of_dense(cls, shape, data):
+        return cls(shape, {tuple(i): v for i, v in zip(gen.all_subs(list(shape)), data)})
+
+    def grow(self, need):
+        n = len(self.shape)
+        if len(need) < n:
+            raise ValueError("key shorter than the order")
+        new = [max(a, b) for a, b in zip(self.shape, need[:n])] + [int(x) for x in need[n:]]
+        extra = len(new) - n
+        if extra:
+            self.cells = {k + (0,) * extra: v for k, v in self.cells.items()}
+        self.shape = new
+
+    def put(self, key, v):
+        key = tuple(int(k) for k in key)
+        if len(key) != len(self.shape) or any(k < 0 or k >= s for k, s in zip(key, self.shape)):
+            raise ValueError("subscript outside the tensor")
+        self.cells[key] = v
+
+    def step(self, st):
+        op = st["op"]
+        if op == "set1":
+            self.grow([k + 1 for k in st["key"]])
+            self.put(st["key"], st["val"])
+        elif op == "region":
+            key = st["key"]
+            self.grow([k[1] if isinstance(k, list) else k + 1 for k in key])
+            v = st["val"]
+            vshape = [k[1] - k[0] for k in key if isinstance(k, list)]
+            if isinstance(v, dict):
+                if v["shape"] != vshape:
+                    raise ValueError("block shape")
+                at = dense_at(v)
+            else:
+                at = lambda o: v  # noqa: E731
+            for off in gen.all_subs(vshape):
+                it = iter(off)
+                self.put([k[0] + next(it) if isinstance(k, list) else k for k in key], at(off))
+        elif op == "subs":
+            rows = st["subs"]
+            if len({tuple(r) for r in rows}) != len(rows):
+                raise ValueError("repeated subscript")
+            self.grow([max(r[d] for r in rows) + 1 for d in range(len(rows[0]))])
+            for r, v in zip(rows, st["vals"]):
+                self.put(r, v)
+        elif op == "lin":
+            n = gen.numel(self.shape)
+            if len(set(st["idx"])) != len(st["idx"]) or any(k < 0 or k >= n for k in st["idx"]):
+                raise ValueError("linear index")
+            for k, v in zip(st["idx"], st["vals"]):
+                self.put(f_unindex(self.shape, k), v)
+        elif op == "permute":
+            o = st["order"]
+            if sorted(o) != list(range(len(self.shape))):
+                raise ValueError("order")
+            self.cells = {tuple(k[a] for a in o): v for k, v in self.cells.items()}
+            self.shape = [self.shape[a] for a in o]
+        elif op == "attr":
+            pass  # same entries, another buffer
+        elif op == "gt0":  # a comparison result: a bool tensor of the same shape
+            self.cells = {k: int(v > 0) for k, v in self.cells.items()}
+        else:
+            raise ValueError(op)
+
+    def dense_j(self):
+        return {"shape": list(self.shape), "data": [self.cells.get(tuple(i), 0) for i in gen.all_subs(self.shape)]}
+
+    def sparse_j(self):
+        nz = sorted((k, v) for k, v in self.cells.items() if v != 0)
+        return {"shape": list(self.shape), "subs": [list(k) for k, _ in nz], "vals": [v for _, v in nz]}
+
+
+def ref_dense(src):
+    b = src["base"]
+    sim = _Sim() if b is None else _Sim.of_dense(b["shape"], [int(bool(v)) if b.get("dtype") == "b1" else v for v in b["data"]])
+    for st in src["steps"]:
+        sim.step(st)
+    return sim
+
+
+def ref_sparse(src):
+    b = src["base"]
+    if b is None:
+        sim = _Sim()
+    elif "dense" in b:
+        sim = ref_dense(b["dense"])
+    else:
+        if len({tuple(r) for r in b.get("subs", [])}) != len(b.get("subs", [])):
+            raise ValueError("repeated subscript")
+        sim = _Sim(b["shape"], {tuple(r): v for r, v in zip(b.get("subs", []), b.get("vals", []))})
+    for st in src["steps"]:
+        sim.step(st)
+    return sim
+
+
+def _key(k):
+    return tuple(slice(x[0], x[1]) if isinstance(x, list) else int(x) for x in k)
+
+
+def build_dense(src):
+    """run the recipe on the real code"""
+    b = src["base"]
+    if b is None:
+        T = ttb.tensor()
+    else:
+        T = ttb.tensor(laid_out(b["shape"], b["data"], b.get("lay", "F"), b.get("dtype", "f8")), copy=b.get("copy", True))
+    for st in src["steps"]:
+        op = st["op"]
+        if op == "set1":
+            T[tuple(int(k) for k in st["key"])] = st["val"]
+        elif op == "region":
+            v = st["val"]
+            T[_key(st["key"])] = laid_out(v["shape"], v["data"], st.get("vlay", "C")) if isinstance(v, dict) else v
+        elif op == "subs":
+            T[np.array(st["subs"], dtype=int)] = np.array(st["vals"], dtype=float)
+        elif op == "lin":
+            T[np.array(st["idx"], dtype=int)] = np.array(st["vals"], dtype=float)
+        elif op == "permute":
+            T = T.permute(np.array(st["order"], dtype=int))
+        elif op == "gt0":
+            T = T > 0
+        elif op == "attr":  # the public data attribute re-pointed at an equal array in another layout
+            T.data = laid_out(list(T.shape), [T.data[tuple(i)] for i in gen.all_subs([int(s) for s in T.shape])],
+                              st["lay"], "f8")
+        else:
+            raise ValueError(op)
+    return T
+
+
+def build_sparse(src):
+    b = src["base"]
+    if b is None:
+        S = ttb.sptensor()
+    elif "dense" in b:
+        S = build_dense(b["dense"]).to_sptensor()
+    elif not b.get("subs"):
+        S = ttb.sptensor(shape=tuple(b["shape"]))
+    else:
+        n, N = len(b["subs"]), len(b["shape"])
+        subs = laid_out([n, N], [b["subs"][r][d] for d in range(N) for r in range(n)], b.get("lay", "C"), "i8")
+        vals = laid_out([n, 1], b["vals"], b.get("vlay", "C"), b.get("dtype", "f8"))
+        S = ttb.sptensor(subs, vals, tuple(b["shape"]), copy=b.get("copy", True))
+    for st in src["steps"]:
+        op = st["op"]
+        if op == "set1":
+            S[tuple(int(k) for k in st["key"])] = st["val"]
+        elif op == "subs":
+            S[np.array(st["subs"], dtype=int)] = np.array(st["vals"], dtype=float).reshape(-1, 1)
+        elif op == "permute":
+            S = S.permute(np.array(st["order"], dtype=int))
+        else:
+            raise ValueError(op)
+    return S
+
+
+def read_dense(T):
+    """the array a dense tensor denotes, read entry by entry through subscripts"""
+    shape = [int(s) for s in T.shape]
+    if tuple(T.data.shape) != tuple(shape):
+        raise ValueError(f"data.shape {T.data.shape} != shape {T.shape}")
+    return {"shape": shape, "data": jval([T.data[tuple(i)] for i in gen.all_subs(shape)])}
+
+
+def read_matrix(A):
+    A = np.asarray(A)
+    shape = [int(s) for s in A.shape]
+    return {"shape": shape, "data": jval([A[tuple(i)] for i in gen.all_subs(shape)])}
+
+
+def read_sparse(S):
+    """the array a sparse tensor denotes (values stored under one subscript add up), zeros dropped, sorted"""
+    shape = [int(s) for s in S.shape]
+    acc = {}
+    subs, vals = np.asarray(S.subs), np.asarray(S.vals)
+    n = 0 if subs.size == 0 else subs.shape[0]
+    for r in range(n):
+        k = tuple(int(subs[r, d]) for d in range(len(shape)))
+        if any(x < 0 or x >= s for x, s in zip(k, shape)):
+            raise ValueError("stored subscript outside the shape")
+        acc[k] = acc.get(k, 0) + vals[r, 0]
+    nz = sorted((k, v) for k, v in acc.items() if v != 0)
+    return {"shape": shape, "subs": [list(k) for k, _ in nz], "vals": jval([v for _, v in nz])}
+
+
+def matricize_ref(x, rd, cd):
+    """the matrix the (rd, cd) split of the dense reference x must give (placement rule of the property)"""
+    rs, cs = [x["shape"][k] for k in rd], [x["shape"][k] for k in cd]
+    R, C = gen.numel(rs), gen.numel(cs)
+    mat = [0] * (R * C)
+    at = dense_at(x)
+    for i in gen.all_subs(x["shape"]):
+        mat[sub2ind(rs, [i[k] for k in rd]) + R * sub2ind(cs, [i[k] for k in cd])] = at(i)
+    return {"shape": [R, C], "data": mat}
+
+
+def _kw(conv):
+    kw = {}
+    if conv.get("rdims") is not None:
+        kw["rdims"] = np.array(conv["rdims"], dtype=int)
+    if conv.get("cdims") is not None:
+        kw["cdims"] = np.array(conv["cdims"], dtype=int)
+    if conv.get("cyc"):
+        kw["cdims_cyclic"] = conv["cyc"]
+    return kw
+
+
+def splits_for(rng, N, cap):
+    """mode splits for an operand of order N: every ordered partition (sampled beyond `cap`) and every
+    single-mode convention"""
+    parts = ordered_partitions(N)
+    if len(parts) > cap:
+        parts = rng.sample(parts, cap)
+    out = [{"rdims": r, "cdims": c_, "cyc": None} for r, c_ in parts]
+    for k in range(N):
+        for cyc in ("fc", "bc", "t", None):
+            out.append({"rdims": [k], "cdims": None, "cyc": cyc})
+        out.append({"rdims": None, "cdims": [k], "cyc": None})
+    return out
+
+
+def _distinct_data(rng, s, zero_share=0.25):
+    """entries pairwise distinct where non-zero (so that no misplacement can go unnoticed), some zeros"""
+    n = gen.numel(s)
+    pool = [v for v in range(-9, 10) if v]
+    vals = rng.sample(pool, n) if n <= len(pool) else [rng.choice(pool) for _ in range(n)]
+    out = [0 if rng.random() < zero_share else v for v in vals]
+    if n > 1 and all(v == 0 for v in out):
+        out[rng.randrange(n)] = vals[0]
+    return out
+
+
+def _block(rng, vshape, lo=10, hi=30):
+    n = gen.numel(vshape)
+    vals = rng.sample(range(lo, hi), n) if n <= hi - lo else [rng.randrange(lo, hi) for _ in range(n)]
+    if n > 2:
+        vals[rng.randrange(n)] = 0
+    return {"shape": list(vshape), "data": vals}
+
+
+def dense_sources(rng, tier):
+    """ENUMERATION (not a sample) of the ways a dense operand comes about; only the values are drawn.
+    -> [(label, recipe)]"""
+    out = []
+    bases = [[3], [2, 3], [3, 2], [3, 1, 2], [2, 3, 2]]
+    if tier == "thorough":
+        bases += [[1, 3], [2, 2], [4, 3, 2], [2, 3, 4], [2, 1, 2, 3]]
+
+    def base(s, lay="F", dt="f8", copy=True):
+        d = _distinct_data(rng, s)
+        if dt == "b1":
+            d = [int(v != 0) for v in d]
+        return {"shape": list(s), "data": d, "lay": lay, "dtype": dt, "copy": copy}
+
+    def nv():
+        return rng.choice([v for v in range(31, 60)])
+
+    def add(label, b, steps):
+        out.append((label, {"base": b, "steps": steps}))
+
+    for s in bases:
+        N = len(s)
+        inner = [x - 1 for x in s]
+        keys = {"first": [s[0]] + [0] * (N - 1), "last": [0] * (N - 1) + [s[-1]], "all": list(s),
+                "far": [x + 1 for x in s]}
+        seen = set()
+        for nm, key in keys.items():
+            if tuple(key) in seen:
+                continue
+            seen.add(tuple(key))
+            add(f"grow-sub-{nm}", base(s), [{"op": "set1", "key": key, "val": nv()}])
+        add("grow-trailing-mode2", base(s), [{"op": "set1", "key": inner + [1], "val": nv()}])
+        add("grow-trailing-mode1", base(s), [{"op": "set1", "key": [0] * N + [0], "val": nv()}])
+        # region growth: a slab past the last mode; a block straddling the end of the first mode; a slab in a new mode
+        k1 = [[0, x] for x in s[:-1]] + [[s[-1], s[-1] + 2]]
+        add("grow-region-last", base(s), [{"op": "region", "key": k1, "val": _block(rng, s[:-1] + [2]), "vlay": rng.choice(["C", "F"])}])
+        k2 = [[s[0] - 1, s[0] + 1]] + [[0, x] for x in s[1:]]
+        add("grow-region-first", base(s), [{"op": "region", "key": k2, "val": _block(rng, [2] + s[1:]), "vlay": "F"}])
+        k3 = [[0, x] for x in s] + [1]
+        add("grow-region-newmode", base(s), [{"op": "region", "key": k3, "val": _block(rng, s), "vlay": "C"}])
+        add("grow-region-scalar", base(s), [{"op": "region", "key": [[x - 1, x + 1] for x in s], "val": nv()}])
+        # subscript-array growth
+        rows = [keys["first"], keys["last"]] if N > 1 else [[s[0]], [s[0] + 2]]
+        add("grow-subs", base(s), [{"op": "subs", "subs": rows, "vals": [nv(), -nv()]}])
+        add("grow-subs-newmode", base(s), [{"op": "subs", "subs": [inner + [1], [0] * N + [0]], "vals": [nv(), -nv()]}])
+        # growth, then further writes into the new buffer
+        add("grow-then-write", base(s), [
+            {"op": "set1", "key": list(s), "val": nv()},
+            {"op": "set1", "key": [0] * N, "val": -nv()},
+            {"op": "lin", "idx": [1, gen.numel([x + 1 for x in s]) - 2], "vals": [nv(), nv()]},
+            {"op": "region", "key": [[0, 2]] + [0] * (N - 1), "val": _block(rng, [2]), "vlay": "C"}])
+        add("grow-twice", base(s), [{"op": "set1", "key": keys["first"], "val": nv()},
+                                    {"op": "set1", "key": [0] * (N - 1) + [s[-1] + 1], "val": -nv()}])
+        if N > 1:
+            add("grow-then-permute", base(s), [{"op": "set1", "key": list(s), "val": nv()},
+                                               {"op": "permute", "order": list(range(N))[::-1]}])
+            add("permute-then-grow", base(s), [{"op": "permute", "order": list(range(1, N)) + [0]},
+                                               {"op": "set1", "key": [s[k] for k in list(range(1, N)) + [0]], "val": nv()}])
+        add("write-in-place", base(s), [{"op": "set1", "key": inner, "val": nv()}])
+        for dt in ("i8", "b1"):
+            add(f"grow-sub-all-{dt}", base(s, "C", dt), [{"op": "set1", "key": list(s), "val": nv()}])
+        # a comparison result (bool data), as it is and after growth (F01-bool-tenmat)
+        add("compare-gt0", base(s), [{"op": "gt0"}])
+        add("grow-then-compare-gt0", base(s), [{"op": "set1", "key": list(s), "val": nv()}, {"op": "gt0"}])
+    # an empty tensor filled by assignment
+    add("empty-fill", None, [{"op": "set1", "key": [0, 2], "val": nv()}, {"op": "set1", "key": [1, 0], "val": -nv()}])
+    add("empty-fill", None, [{"op": "set1", "key": [2], "val": nv()}, {"op": "set1", "key": [0], "val": -nv()}])
+    add("empty-fill", None, [{"op": "set1", "key": [1, 0, 2], "val": nv()}, {"op": "set1", "key": [0, 1, 0], "val": -nv()},
+                             {"op": "set1", "key": [1, 1, 1], "val": nv()}])
+    add("empty-fill", None, [{"op": "set1", "key": [2, 1], "val": nv()}, {"op": "set1", "key": [0, 0], "val": -nv()},
+                             {"op": "set1", "key": [1, 3], "val": nv()}, {"op": "set1", "key": [0, 1], "val": nv()}])
+    add("empty-fill-subs", None, [{"op": "subs", "subs": [[0, 2, 1], [1, 0, 0]], "vals": [nv(), -nv()]}])
+    add("empty-fill-subs", None, [{"op": "subs", "subs": [[1, 2]], "vals": [nv()]}])
+    add("empty-fill-region", None, [{"op": "region", "key": [[0, 2], [0, 3]], "val": _block(rng, [2, 3]), "vlay": "C"}])
+    add("empty-fill-newmode", None, [{"op": "set1", "key": [1, 2], "val": nv()}, {"op": "set1", "key": [0, 0, 1], "val": -nv()}])
+    # constructor fed with arrays in every memory layout / dtype, copying or not
+    for s in [[4], [2, 3], [3, 1, 2], [2, 3, 2]] + ([[3, 4, 2], [2, 2, 3, 2]] if tier == "thorough" else []):
+        for lay in ("F", "C", "T", "strided", "neg"):
+            for copy in (True, False):
+                add(f"ctor-{lay}-{'copy' if copy else 'nocopy'}", base(s, lay, "f8", copy), [])
+        for dt in ("i8", "i4", "b1", "f4"):
+            for lay in ("C", "strided"):
+                add(f"ctor-{dt}-{lay}", base(s, lay, dt, True), [])
+    # the data attribute pointed at an equal array that is neither C- nor F-contiguous
+    for s in [[2, 3], [2, 3, 2]]:
+        for lay in ("T", "strided", "C"):
+            add(f"attr-{lay}", base(s), [{"op": "attr", "lay": lay}])
+    return out
+
+
+def random_dense_source(rng):
+    s = gen.shape(rng, 1, 3, 3)
+    sim_shape = list(s)
+    b = {"shape": s, "data": _distinct_data(rng, s), "lay": rng.choice(["F", "C", "T", "strided", "neg"]),
+         "dtype": "f8", "copy": rng.random() < 0.7}
+    if rng.random() < 0.15:
+        b, sim_shape = None, []
+    src = {"base": b, "steps": []}
+    for _ in range(rng.randint(1, 4)):
+        N = len(sim_shape)
+        kind = rng.choice(["set1", "set1", "region", "subs", "lin", "permute"])
+        if N == 0 and kind in ("lin", "permute"):
+            kind = "set1"
+        if kind == "set1":
+            key = [rng.randint(0, x) for x in sim_shape] if N else [rng.randint(0, 2) for _ in range(rng.randint(1, 3))]
+            if N < 3 and rng.random() < 0.2:
+                key.append(rng.randint(0, 1))
+            st = {"op": "set1", "key": key, "val": rng.randint(31, 59)}
+        elif kind == "region":
+            key = []
+            dims = sim_shape if N else [2] * rng.randint(1, 2)
+            for x in dims:
+                lo = rng.randint(0, x)
+                key.append([lo, lo + rng.randint(1, 2)] if rng.random() < 0.7 else rng.randint(0, x))
+            vshape = [k[1] - k[0] for k in key if isinstance(k, list)]
+            st = {"op": "region", "key": key, "val": _block(rng, vshape) if vshape and rng.random() < 0.8 else rng.randint(31, 59),
+                  "vlay": rng.choice(["C", "F"])}
+        elif kind == "subs":
+            dims = sim_shape if N else [2] * rng.randint(1, 3)
+            rows = {tuple(rng.randint(0, x) for x in dims) for _ in range(rng.randint(1, 3))}
+            rows = [list(r) for r in sorted(rows)]
+            rng.shuffle(rows)
+            st = {"op": "subs", "subs": rows, "vals": [rng.randint(31, 59) for _ in rows]}
+        elif kind == "lin":
+            n = gen.numel(sim_shape)
+            idx = rng.sample(range(n), min(n, rng.randint(1, 3)))
+            st = {"op": "lin", "idx": idx, "vals": [rng.randint(31, 59) for _ in idx]}
+        else:
+            st = {"op": "permute", "order": gen.perm(rng, N)}
+        src["steps"].append(st)
+        sim_shape = ref_dense({"base": None if b is None else dict(b), "steps": src["steps"]}).shape
+        if gen.numel(sim_shape) > 60:
+            break
+    return src
+
+
+class DerivedDense(Family):
+    """every conversion of a dense tensor, on operands produced by earlier operations: grown by assignment
+    (C-ordered buffer), filled from empty, built from C / transposed / strided / negative-stride views and
+    integer / bool / float32 arrays with and without copying, permuted, written in place"""
+    name = "derived_dense"
+    theorems = ("C01_toSparse_get", "C01_toSparse_wf", "C01_toSparse_nnz", "C01_dense_sparse_dense",
+                "C01_tenmat_entry", "C01_tenmat_roundtrip", "C01_wrap_conventions")
+
+    def gen(self, rng, tier):
+        srcs = dense_sources(rng, tier)
+        if tier == "thorough":
+            srcs += [("random-history", random_dense_source(rng)) for _ in range(150)]
+        out = []
+        for label, src in srcs:
+            N = len(ref_dense(src).shape)
+            light = label.startswith("ctor-")
+            convs = [{"k": "sparse"}, {"k": "same"}]
+            splits = splits_for(rng, N, (6 if light else 24) if tier == "quick" else 40)
+            if light and tier == "quick" and len(splits) > 8:
+                splits = rng.sample(splits, 8)
+            for j, sp in enumerate(splits):
+                convs.append(dict(sp, k="tenmat", copy=(j % 4 != 3)))
+            for cv in convs:
+                out.append({"label": label, "src": src, "conv": cv})
+        return out
+
+    def shrink(self, case):
+        st = case["src"]["steps"]
+        for k in range(len(st) - 1, -1, -1):
+            yield {**case, "src": {"base": case["src"]["base"], "steps": st[:k] + st[k + 1:]}}
+        if case["conv"]["k"] == "tenmat":
+            yield {**case, "conv": {"k": "sparse"}}
+
+    def evaluate(self, cases):
+        refs, impls, reqs = [], [], []
+        for c in cases:
+            try:
+                x = ref_dense(c["src"]).dense_j()
+            except Exception:  # noqa: BLE001  (a shrunk recipe may be meaningless)
+                x = None
+            refs.append(x)
+            cv = c["conv"]
+            if x is None:
+                impls.append(None)
+                continue
+            with _quiet():
+                built = call(build_dense, c["src"])
+                if "ok" not in built:
+                    impls.append({"operand": built})
+                    reqs.append(None)
+                    continue
+                T = built["ok"]
+                info = {"lay": _flags(T.data), "dtype": str(T.data.dtype), "operand": call(read_dense, T)}
+
+                def conv(T=T, cv=cv):
+                    if cv["k"] == "sparse":
+                        S = T.to_sptensor()
+                        fs, fv = T.find()
+                        F = ttb.sptensor(np.array(fs), np.array(fv), T.shape) if np.asarray(fs).size else ttb.sptensor(shape=T.shape)
+                        return {"sp": sparse_j(S), "den": read_sparse(S), "find": read_sparse(F), "nfind": int(np.asarray(fv).size),
+                                "nnz": int(S.nnz), "tnnz": int(T.nnz), "back": read_dense(S.full()),
+                                "double": read_matrix(S.double())}
+                    if cv["k"] == "same":
+                        return {"full": read_dense(T.full()), "double": read_matrix(T.double()), "copy": read_dense(T.copy()),
+                                "again": read_dense(ttb.tensor(T.data, T.shape)), "after": read_dense(T)}
+                    M = T.to_tenmat(**_kw(cv), copy=cv.get("copy", True))
+                    return {"tshape": [int(v) for v in M.tshape], "rdims": jval(M.rindices), "cdims": jval(M.cindices),
+                            "data": read_matrix(M.data), "mshape": [int(v) for v in M.shape],
+                            "double": read_matrix(M.double()), "back": read_dense(M.to_tensor()),
+                            "back_nocopy": read_dense(M.to_tensor(copy=False))}
+                info["res"] = call(conv)
+            impls.append(info)
+            if cv["k"] == "sparse":
+                reqs.append({"op": "to_sptensor", "T": x})
+            elif cv["k"] == "tenmat":
+                reqs.append({"op": "to_tenmat", "T": x, "rdims": cv.get("rdims"), "cdims": cv.get("cdims"), "cyc": cv.get("cyc")})
+            else:
+                reqs.append(None)
+        replies = iter(drive([r for r in reqs if r is not None]))
+        models = [next(replies) if r is not None else None for r in reqs]
+        models = iter(models)
+        out = []
+        for c, x, impl in zip(cases, refs, impls):
+            cv = c["conv"]
+            tags = [c.get("label", "?"), cv["k"]]
+            if x is None:
+                out.append(Verdict("ok", "recipe without a meaning", None, None, None, tags + ["void-recipe"], False))
+                continue
+            m = next(models)
+            tags += [f"N{len(x['shape'])}"]
+            if "res" not in impl or "ok" not in impl["operand"] or not deep_eq(impl["operand"]["ok"], x):
+                # building the operand is C04's business (assignment), not a conversion
+                out.append(Verdict("ok", "the operand itself is not what its history says (not a conversion)", impl, m, x,
+                                   tags + ["operand-mismatch"], False))
+                continue
+            tags += [f"lay:{impl['lay']}", f"dtype:{impl['dtype']}"]
+            res = impl["res"]
+            nt = gen.numel(x["shape"]) > 1
+            if cv["k"] == "tenmat" and ("ok" not in res or "reject" in m):
+                ok = ("ok" not in res) == ("reject" in m)
+                out.append(Verdict("ok" if ok else "violation", "" if ok else "acceptance of the mode split differs from the model",
+                                   impl, m, x, tags + ["reject"], False))
+                continue
+            if "ok" not in res:
+                out.append(Verdict("violation", "a conversion raised", impl, m, x, tags, nt))
+                continue
+            r = res["ok"]
+            bad = None
+            if cv["k"] == "sparse":
+                want = sparse_sorted_j(ref_dense(c["src"]).sparse_j())
+                nz = len(want["subs"])
+                if not deep_eq(sparse_sorted_j(r["den"]), want):
+                    bad = "dense -> sparse: the sptensor does not denote the same array"
+                elif not deep_eq(sparse_sorted_j(r["find"]), want):
+                    bad = "find() does not list the non-zero entries of the array"
+                elif not deep_eq(r["back"], x) or not deep_eq(r["double"], x):
+                    bad = "dense -> sparse -> dense changed the tensor"
+                elif r["nnz"] != nz or r["tnnz"] != nz or r["nfind"] != nz or len(r["sp"]["subs"]) != nz:
+                    bad = "reported nonzero count differs from the number of non-zero entries"
+                elif not deep_eq(r["sp"], m["sp"]):
+                    bad = "to_sptensor differs from the proved model (stored form)"
+                tags.append("allzero" if nz == 0 else "some")
+            elif cv["k"] == "same":
+                for k in ("full", "double", "copy", "again", "after"):
+                    if not deep_eq(r[k], x):
+                        bad = bad or f"{k}: dense -> dense changed the tensor"
+            else:
+                mm = m["ok"]
+                got = {k: r[k] for k in ("tshape", "rdims", "cdims", "data")}
+                spec = matricize_ref(x, r["rdims"], r["cdims"]) if sorted(r["rdims"] + r["cdims"]) == list(range(len(x["shape"]))) else None
+                if spec is None or not deep_eq(r["data"], spec):
+                    bad = "to_tenmat: an entry is not at (row, column) = (sub2ind of its row modes, sub2ind of its column modes)"
+                elif not deep_eq(got, mm):
+                    bad = "to_tenmat differs from the proved model"
+                elif not deep_eq(r["back"], x) or not deep_eq(r["back_nocopy"], x):
+                    bad = "to_tenmat followed by to_tensor changed the tensor"
+                elif not deep_eq(r["double"], spec):
+                    bad = "tenmat.double() differs from the matricization"
+                elif r["mshape"] != spec["shape"] or r["tshape"] != x["shape"]:
+                    bad = "reported shapes are inconsistent"
+                tags.append(cv.get("cyc") or "split")
+            out.append(Verdict("violation" if bad else "ok", bad or "", impl, m, x, tags, nt))
+        return out
+
+
+# -- sparse operands ---------------------------------------------------------------------------
+def sparse_sources(rng, tier):
+    out = []
+
+    def add(label, b, steps):
+        out.append((label, {"base": b, "steps": steps}))
+
+    def entries(s, klass="some", order=None):
+        subs, vals = gen.sparse_entries(rng, s, klass, order)
+        pool = [v for v in range(-9, 10) if v]
+        if len(vals) <= len(pool):
+            vals = rng.sample(pool, len(vals))
+        return subs, vals
+
+    def nv():
+        return rng.randint(31, 59)
+
+    shapes = [[4], [2, 3], [3, 1, 2], [2, 3, 2]] + ([[3, 2], [2, 3, 4], [2, 1, 2, 3]] if tier == "thorough" else [])
+    for s in shapes:
+        N = len(s)
+        cells = gen.all_subs(s)
+        # element assignment into an empty sptensor of that shape, in non-sorted order
+        order = list(cells)
+        rng.shuffle(order)
+        k = max(2, len(order) // 2)
+        add("assign-unsorted", {"shape": s}, [{"op": "set1", "key": key, "val": (-1) ** j * nv()} for j, key in enumerate(order[:k])])
+        add("assign-reversed", {"shape": s}, [{"op": "set1", "key": key, "val": nv()}
+                                              for key in sorted(cells, key=lambda r: list(reversed(r)), reverse=True)[:k]])
+        rows = order[:k]
+        add("assign-subs-array", {"shape": s}, [{"op": "subs", "subs": rows, "vals": [(-1) ** j * nv() for j in range(len(rows))]}])
+        # stored tensor (sorted / reversed / shuffled), then overwritten, deleted and grown
+        for o in ("sorted", "reversed", "shuffled"):
+            subs, vals = entries(s, "some", o)
+            while len(subs) < 2:
+                subs, vals = entries(s, "all", o)
+            b = {"shape": s, "subs": subs, "vals": vals}
+            add(f"stored-{o}-overwrite-delete", b, [{"op": "set1", "key": subs[0], "val": nv()},
+                                                    {"op": "set1", "key": subs[-1], "val": 0}])
+            add(f"stored-{o}-grow-sub", b, [{"op": "set1", "key": list(s), "val": nv()}])
+            add(f"stored-{o}-grow-first", b, [{"op": "set1", "key": [s[0] + 1] + [0] * (N - 1), "val": -nv()}])
+            add(f"stored-{o}-grow-subs", b, [{"op": "subs", "subs": [list(s), [0] * (N - 1) + [s[-1] + 1]], "vals": [nv(), -nv()]}])
+            add(f"stored-{o}-grow-newmode", b, [{"op": "set1", "key": [x - 1 for x in s] + [1], "val": nv()}])
+            add(f"stored-{o}-grow-newmode-subs", b, [{"op": "subs", "subs": [[x - 1 for x in s] + [1], [0] * N + [0]],
+                                                     "vals": [nv(), -nv()]}])
+            if N > 1:
+                add(f"stored-{o}-permute-grow", b, [{"op": "permute", "order": list(range(1, N)) + [0]},
+                                                    {"op": "set1", "key": [s[k2] for k2 in list(range(1, N)) + [0]], "val": nv()}])
+        # constructor fed with subscript / value arrays in other layouts, copying or not
+        for lay in ("C", "F", "strided", "neg"):
+            for copy in (True, False):
+                subs, vals = entries(s, rng.choice(["some", "all"]), "shuffled")
+                if not subs:
+                    subs, vals = entries(s, "all", "shuffled")
+                add(f"ctor-subs{lay}-{'copy' if copy else 'nocopy'}",
+                    {"shape": s, "subs": subs, "vals": vals, "lay": lay, "vlay": rng.choice(["C", "strided"]), "copy": copy}, [])
+        # dense tensors with a history, converted, then converted again
+        dsrc = {"base": {"shape": s, "data": _distinct_data(rng, s), "lay": "F", "dtype": "f8", "copy": True},
+                "steps": [{"op": "set1", "key": list(s), "val": nv()}]}
+        add("from-grown-dense", {"dense": dsrc}, [])
+        add("from-grown-dense-then-assign", {"dense": dsrc}, [{"op": "set1", "key": [0] * N, "val": -nv()}])
+    # a shapeless empty sptensor filled by assignment
+    add("empty-fill", None, [{"op": "set1", "key": [1, 2], "val": nv()}, {"op": "set1", "key": [0, 1], "val": -nv()},
+                             {"op": "set1", "key": [2, 0], "val": nv()}])
+    add("empty-fill-subs", None, [{"op": "subs", "subs": [[1, 0, 2], [0, 2, 1], [1, 1, 0]], "vals": [nv(), -nv(), nv()]}])
+    add("from-filled-dense", {"dense": {"base": None, "steps": [{"op": "set1", "key": [0, 2], "val": nv()},
+                                                                {"op": "set1", "key": [1, 0], "val": -nv()}]}}, [])
+    return out
+
+
+class DerivedSparse(Family):
+    """every conversion of a sparse tensor, on operands produced by earlier operations: filled entry by
+    entry in arbitrary order, overwritten / deleted / grown by assignment (also into a new mode), permuted,
+    built around subscript arrays in other layouts without copying, obtained from a grown dense tensor"""
+    name = "derived_sparse"
+    theorems = ("C01_sp_full_at", "C01_sparse_dense_sparse", "C01_sptenmat_entry", "C01_sptenmat_roundtrip",
+                "C01_sptenmat_full")
+
+    def gen(self, rng, tier):
+        out = []
+        for label, src in sparse_sources(rng, tier):
+            N = len(ref_sparse(src).shape)
+            convs = [{"k": "dense"}]
+            light = label.startswith("ctor-")
+            for sp in splits_for(rng, N, (4 if light else 8) if tier == "quick" else 24):
+                if sp["cdims"] is None and sp["cyc"] is None and light:
+                    continue
+                convs.append(dict(sp, k="sptenmat"))
+            for cv in convs:
+                out.append({"label": label, "src": src, "conv": cv})
+        return out
+
+    def shrink(self, case):
+        st = case["src"]["steps"]
+        for k in range(len(st) - 1, -1, -1):
+            yield {**case, "src": {"base": case["src"]["base"], "steps": st[:k] + st[k + 1:]}}
+        if case["conv"]["k"] == "sptenmat":
+            yield {**case, "conv": {"k": "dense"}}
+
+    def evaluate(self, cases):
+        refs, impls, reqs = [], [], []
+        for c in cases:
+            try:
+                sim = ref_sparse(c["src"])
+            except Exception:  # noqa: BLE001
+                sim = None
+            refs.append(sim)
+            cv = c["conv"]
+            if sim is None:
+                impls.append(None)
+                continue
+            with _quiet():
+                built = call(build_sparse, c["src"])
+                if "ok" not in built:
+                    impls.append({"operand": built})
+                    reqs.append(None)
+                    continue
+                S = built["ok"]
+                info = {"operand": call(read_sparse, S), "stored": call(sparse_j, S)}
+
+                def conv(S=S, cv=cv):
+                    if cv["k"] == "dense":
+                        D = S.full()
+                        return {"full": read_dense(D), "lay": _flags(D.data), "double": read_matrix(S.double()),
+                                "to_tensor": read_dense(S.to_tensor()), "back": read_sparse(D.to_sptensor()), "nnz": int(S.nnz)}
+                    M = S.to_sptenmat(**_kw(cv))
+                    subs = np.asarray(M.subs)
+                    return {"tshape": [int(v) for v in M.tshape], "rdims": jval(M.rdims), "cdims": jval(M.cdims),
+                            "subs": [] if subs.size == 0 else jval(subs.astype(int)),
+                            "vals": [] if np.asarray(M.vals).size == 0 else jval(np.asarray(M.vals).reshape(-1)),
+                            "nnz": int(M.nnz), "mshape": [int(v) for v in M.shape], "back": read_sparse(M.to_sptensor()),
+                            "full": read_matrix(M.full().data), "double": read_matrix(M.double().toarray())}
+                info["res"] = call(conv)
+            impls.append(info)
+            if "ok" not in info["stored"]:
+                reqs.append(None)
+            elif cv["k"] == "dense":
+                reqs.append({"op": "sp_full", "S": info["stored"]["ok"]})
+            else:
+                reqs.append({"op": "to_sptenmat", "S": info["stored"]["ok"], "rdims": cv.get("rdims"), "cdims": cv.get("cdims"),
+                             "cyc": cv.get("cyc")})
+        replies = iter(drive([r for r in reqs if r is not None]))
+        models = iter([next(replies) if r is not None else None for r in reqs])
+        out = []
+        for c, sim, impl in zip(cases, refs, impls):
+            cv = c["conv"]
+            tags = [c.get("label", "?"), cv["k"]]
+            if sim is None:
+                out.append(Verdict("ok", "recipe without a meaning", None, None, None, tags + ["void-recipe"], False))
+                continue
+            m = next(models)
+            want = sparse_sorted_j(sim.sparse_j())
+            x = sim.dense_j()
+            tags += [f"N{len(x['shape'])}", f"nnz{min(len(want['subs']), 3)}"]
+            from_dense = isinstance(c["src"]["base"], dict) and "dense" in c["src"]["base"] and not c["src"]["steps"]
+            if "res" not in impl or "ok" not in impl["operand"] or not deep_eq(sparse_sorted_j(impl["operand"]["ok"]), want):
+                if from_dense and "res" in impl:
+                    out.append(Verdict("violation", "dense (with a history) -> sparse: the sptensor does not denote the same array",
+                                       impl, m, want, tags, True))
+                else:
+                    out.append(Verdict("ok", "the operand itself is not what its history says (not a conversion)", impl, m, want,
+                                       tags + ["operand-mismatch"], False))
+                continue
+            res = impl["res"]
+            nt = len(want["subs"]) > 0
+            if cv["k"] == "sptenmat" and ("ok" not in res or "reject" in m):
+                ok = ("ok" not in res) == ("reject" in m)
+                out.append(Verdict("ok" if ok else "violation", "" if ok else "to_sptenmat acceptance differs from the model",
+                                   impl, m, want, tags + ["reject"], False))
+                continue
+            if "ok" not in res:
+                out.append(Verdict("violation", "a conversion raised", impl, m, want, tags, nt))
+                continue
+            r = res["ok"]
+            bad = None
+            if cv["k"] == "dense":
+                if not deep_eq(r["full"], x) or not deep_eq(r["double"], x) or not deep_eq(r["to_tensor"], x):
+                    bad = "sparse -> dense does not denote the same array"
+                elif not deep_eq(r["full"], m):
+                    bad = "sptensor.full differs from the proved model"
+                elif not deep_eq(sparse_sorted_j(r["back"]), want):
+                    bad = "sparse -> dense -> sparse changed the tensor"
+                elif r["nnz"] != len(want["subs"]):
+                    bad = "nnz differs from the number of non-zero entries"
+            else:
+                mm = m["ok"]
+                got = {k: r[k] for k in ("tshape", "rdims", "cdims", "subs", "vals")}
+                spec = matricize_ref(x, r["rdims"], r["cdims"]) if sorted(r["rdims"] + r["cdims"]) == list(range(len(x["shape"]))) else None
+                if spec is None or not deep_eq(r["full"], spec) or not deep_eq(r["double"], spec):
+                    bad = "sptenmat.full()/double() is not the matricization of the array the operand denotes"
+                elif not deep_eq(sparse_sorted_j(r["back"]), want):
+                    bad = "sparse -> sptenmat -> sparse changed the tensor"
+                elif not deep_eq(got, mm):
+                    bad = "to_sptenmat differs from the proved model (stored form)"
+                elif r["nnz"] != len(want["subs"]) or len(r["subs"]) != r["nnz"] or r["mshape"] != spec["shape"]:
+                    bad = "sptenmat reports a wrong number of nonzeros / shape"
+                elif len(set(map(tuple, r["subs"]))) != len(r["subs"]) or any(v == 0 for v in r["vals"]):
+                    bad = "sptenmat is not well-formed (duplicate subscripts or explicit zero)"
+                tags.append(cv.get("cyc") or "split")
+            out.append(Verdict("violation" if bad else "ok", bad or "", impl, m, want, tags, nt))
+        return out
+
+
+# -- tenmat / sptenmat wrapped directly around user arrays ----------------------------------------
+class DirectMatrices(Family):
+    """tenmat(data, rdims, cdims, tshape) and sptenmat(subs, vals, ...) / sptenmat.from_array built directly
+    from user arrays in C / F / transposed / strided layouts (integer and float32 too), with and without
+    copying, converted back to a tensor: entry (sub2ind rows, sub2ind cols) of the matrix is entry i of the tensor"""
+    name = "direct_matrices"
+    theorems = ("C01_tenmat_roundtrip", "C01_tenmat_entry", "C01_sptenmat_roundtrip", "C01_sptenmat_entry")
+
+    def gen(self, rng, tier):
+        out = []
+        shapes = [[3], [2, 3], [3, 1, 2], [2, 3, 2]] + ([[2, 3, 4], [2, 1, 2, 3]] if tier == "thorough" else [])
+        for s in shapes:
+            N = len(s)
+            parts = ordered_partitions(N)
+            if len(parts) > (6 if tier == "quick" else 24):
+                parts = rng.sample(parts, 6 if tier == "quick" else 24)
+            for r, c_ in parts:
+                R, C = gen.numel([s[k] for k in r]), gen.numel([s[k] for k in c_])
+                for lay, dt, copy in [("C", "f8", True), ("C", "f8", False), ("F", "f8", False), ("T", "f8", True),
+                                      ("strided", "f8", False), ("neg", "f8", True), ("C", "i8", True), ("strided", "f4", True)]:
+                    out.append({"k": "tenmat", "tshape": s, "rdims": r, "cdims": c_, "data": _distinct_data(rng, [R, C]),
+                                "lay": lay, "dtype": dt, "copy": copy})
+                cells = [[a, b] for b in range(C) for a in range(R)]
+                for lay, vlay, copy in [("C", "C", True), ("F", "strided", True), ("strided", "C", True), ("C", "C", False),
+                                        ("F", "strided", False), ("neg", "C", False)]:
+                    k = rng.randint(1, len(cells))
+                    subs = rng.sample(cells, k)
+                    vals = gen.int_values(rng, k, nonzero=True, distinct=True)
+                    if copy and k >= 2 and rng.random() < 0.5:  # repeated pairs are summed when copying
+                        subs.append(list(subs[0]))
+                        vals.append(rng.choice([5, -vals[0]]))
+                    out.append({"k": "sptenmat", "tshape": s, "rdims": r, "cdims": c_, "subs": subs, "vals": vals,
+                                "lay": lay, "vlay": vlay, "copy": copy})
+                for lay in ("C", "F", "T", "strided"):
+                    out.append({"k": "from_array", "tshape": s, "rdims": r, "cdims": c_, "data": _distinct_data(rng, [R, C], 0.5),
+                                "lay": lay})
+        return out
+
+    def evaluate(self, cases):
+        impls, reqs = [], []
+        for c in cases:
+            s = c["tshape"]
+            rd, cd = c["rdims"], c["cdims"]
+            R, C = gen.numel([s[k] for k in rd]), gen.numel([s[k] for k in cd])
+
+            def f(c=c, s=s, R=R, C=C):
+                r_, c_ = np.array(c["rdims"], dtype=int), np.array(c["cdims"], dtype=int)
+                if c["k"] == "tenmat":
+                    A = laid_out([R, C], c["data"], c["lay"], c["dtype"])
+                    M = ttb.tenmat(A, r_, c_, tuple(s), copy=c["copy"])
+                    return {"lay": _flags(A), "data": read_matrix(M.data), "double": read_matrix(M.double()),
+                            "back": read_dense(M.to_tensor()), "back_nocopy": read_dense(M.to_tensor(copy=False)),
+                            "copy": read_matrix(M.copy().data), "tshape": [int(v) for v in M.tshape],
+                            "again": read_matrix(M.to_tensor().to_tenmat(rdims=r_, cdims=c_).data)}
+                if c["k"] == "sptenmat":
+                    n = len(c["subs"])
+                    subs = laid_out([n, 2], [c["subs"][r][d] for d in range(2) for r in range(n)], c["lay"], "i8")
+                    vals = laid_out([n, 1], c["vals"], c["vlay"], "f8")
+                    M = ttb.sptenmat(subs, vals, r_, c_, tuple(s), copy=c["copy"])
+                    lay = _flags(subs)
+                else:
+                    A = laid_out([R, C], c["data"], c["lay"], "f8")
+                    M = ttb.sptenmat.from_array(A, r_, c_, tuple(s))
+                    lay = _flags(A)
+                ms = np.asarray(M.subs)
+                return {"lay": lay, "subs": [] if ms.size == 0 else jval(ms.astype(int)),
+                        "vals": [] if np.asarray(M.vals).size == 0 else jval(np.asarray(M.vals).reshape(-1)),
+                        "nnz": int(M.nnz), "full": read_matrix(M.full().data), "double": read_matrix(M.double().toarray()),
+                        "back": read_sparse(M.to_sptensor()), "backfull": read_dense(M.to_sptensor().full())}
+            with _quiet():
+                impls.append(call(f))
+            if c["k"] == "tenmat":
+                reqs.append({"op": "tenmat_to_tensor", "M": {"tshape": s, "rdims": rd, "cdims": cd, "data": {"shape": [R, C], "data": c["data"]}}})
+            else:
+                if c["k"] == "sptenmat":
+                    subs, vals = c["subs"], c["vals"]
+                else:  # from_array lists the non-zero cells row by row
+                    subs = [[a, b] for a in range(R) for b in range(C) if c["data"][a + R * b] != 0]
+                    vals = [c["data"][a + R * b] for a, b in subs]
+                if c["k"] == "sptenmat" and not c["copy"]:
+                    reqs.append({"op": "sptenmat_to_sptensor", "M": {"tshape": s, "rdims": rd, "cdims": cd, "subs": subs, "vals": vals}})
+                else:
+                    reqs.append({"op": "sptenmat_ctor", "subs": subs, "vals": vals, "rdims": rd, "cdims": cd, "tshape": s})
+        models = drive(reqs)
+        out = []
+        for c, impl, m in zip(cases, impls, models):
+            s = c["tshape"]
+            rd, cd = c["rdims"], c["cdims"]
+            rs, cs = [s[k] for k in rd], [s[k] for k in cd]
+            R, C = gen.numel(rs), gen.numel(cs)
+            tags = [c["k"], f"N{len(s)}", "copy" if c.get("copy", True) else "nocopy"]
+            if "ok" not in impl:
+                out.append(Verdict("violation", "wrapping a valid matrix / converting it back raised", impl, m, None, tags, True))
+                continue
+            r = impl["ok"]
+            tags.append(f"lay:{r['lay']}")
+            # the matrix and the tensor it denotes, from the logical (row, column) pairs of the case
+            if c["k"] == "sptenmat":
+                mat = [0] * (R * C)
+                for (a, b), v in zip(c["subs"], c["vals"]):
+                    mat[a + R * b] += v
+            else:
+                mat = list(c["data"])
+            spec_m = {"shape": [R, C], "data": mat}
+            ten = []
+            for i in gen.all_subs(s):
+                ten.append(mat[sub2ind(rs, [i[k] for k in rd]) + R * sub2ind(cs, [i[k] for k in cd])])
+            spec_t = {"shape": list(s), "data": ten}
+            bad = None
+            if c["k"] == "tenmat":
+                if not deep_eq(r["data"], spec_m) or not deep_eq(r["double"], spec_m) or not deep_eq(r["copy"], spec_m):
+                    bad = "tenmat built from a user array does not hold that matrix"
+                elif not deep_eq(r["back"], spec_t) or not deep_eq(r["back_nocopy"], spec_t):
+                    bad = "tenmat.to_tensor: entry i is not the matrix entry at (sub2ind rows, sub2ind cols)"
+                elif not deep_eq(r["back"], m):
+                    bad = "tenmat.to_tensor differs from the proved model"
+                elif not deep_eq(r["again"], spec_m) or r["tshape"] != list(s):
+                    bad = "tenmat -> tensor -> tenmat changed the matrix"
+            else:
+                nz = sum(1 for v in mat if v != 0)
+                want = sparse_sorted_j(_Sim.of_dense(s, ten).sparse_j())
+                if not deep_eq(r["full"], spec_m) or not deep_eq(r["double"], spec_m):
+                    bad = "sptenmat built from user arrays does not denote the sum of the given (row, column, value) triples"
+                elif not deep_eq(sparse_sorted_j(r["back"]), want) or not deep_eq(r["backfull"], spec_t):
+                    bad = "sptenmat.to_sptensor: entry i is not the matrix entry at (sub2ind rows, sub2ind cols)"
+                elif r["nnz"] != nz or len(r["subs"]) != nz:
+                    bad = "sptenmat reports a wrong number of nonzeros / keeps explicit zeros"
+                elif c["k"] == "sptenmat" and not c["copy"]:
+                    if not deep_eq(sparse_sorted_j(r["back"]), sparse_sorted_j(m)):
+                        bad = "sptenmat.to_sptensor differs from the proved model"
+                elif "ok" not in m or not deep_eq({"subs": r["subs"], "vals": r["vals"]}, {"subs": m["ok"]["subs"], "vals": m["ok"]["vals"]}):
+                    bad = "sptenmat stored form differs from the proved model"
+            out.append(Verdict("violation" if bad else "ok", bad or "", impl, m, spec_t, tags, R * C > 1))
+        return out
+
+
+# -- Kruskal / Tucker / sum tensors whose components have a history ---------------------------------
+def _mat_lay(rows, lay):
+    m, n = len(rows), len(rows[0]) if rows else 0
+    return laid_out([m, n], [rows[a][b] for b in range(n) for a in range(m)], lay, "f8")
+
+
+class DerivedHolders(Family):
+    """Kruskal / Tucker / sum tensor -> dense when the components come from earlier operations: factor
+    matrices that are C-ordered / transposed / strided views (copied or not), a Tucker core that was grown
+    by assignment (dense, C-ordered buffer) or filled entry by entry (sparse), sum parts with a history"""
+    name = "derived_holders"
+    theorems = ("C01_kruskal_full", "C01_tucker_full", "C01_sum_full")
+
+    def gen(self, rng, tier):
+        out = []
+        lays = ["F", "C", "T", "strided", "neg"]
+        shapes = [[3], [2, 3], [3, 1, 2], [2, 3, 2]] + ([[2, 3, 4], [3, 2, 2, 2]] if tier == "thorough" else [])
+        grown = [(lb, src) for lb, src in dense_sources(rng, "quick")
+                 if lb.startswith(("grow-sub-all", "grow-sub-first", "grow-trailing-mode2", "grow-region-last", "grow-subs",
+                                   "grow-then-write", "empty-fill", "attr-", "ctor-C-nocopy", "ctor-strided-copy"))]
+        for s in shapes:
+            for j, lay in enumerate(lays):
+                for copy in (True, False):
+                    R = 1 + (j + int(copy)) % 3
+                    out.append({"k": "kruskal", "weights": gen.int_values(rng, R, -3, 3), "factors": [gen.matrix(rng, m, R) for m in s],
+                                "lays": [lay if (n + j) % 2 == 0 else lays[(j + n) % len(lays)] for n in range(len(s))],
+                                "copy": copy})
+        for lb, src in grown:
+            cs = ref_dense(src).shape
+            if gen.numel(cs) > 40:
+                continue
+            for copy in (True, False):
+                fl = [rng.choice(lays) for _ in cs]
+                out.append({"k": "tucker", "label": lb, "core": {"dense": src},
+                            "factors": [gen.matrix(rng, rng.randint(1, 3), m) for m in cs], "lays": fl, "copy": copy})
+                out.append({"k": "sum", "label": lb, "copy": copy, "parts": [
+                    {"dense": src},
+                    {"sparse": {"base": {"shape": cs}, "steps": [{"op": "set1", "key": [x - 1 for x in cs], "val": rng.randint(31, 59)},
+                                                                 {"op": "set1", "key": [0] * len(cs), "val": -rng.randint(31, 59)}]}},
+                    {"dense": src}][:rng.randint(1, 3)]})
+        for lb, src in sparse_sources(rng, "quick"):
+            if lb.startswith(("assign-unsorted", "stored-shuffled-grow-sub", "stored-reversed-grow-newmode", "empty-fill")):
+                cs = ref_sparse(src).shape
+                out.append({"k": "tucker", "label": "sp-" + lb, "core": {"sparse": src},
+                            "factors": [gen.matrix(rng, rng.randint(1, 3), m) for m in cs], "lays": [rng.choice(lays) for _ in cs],
+                            "copy": rng.random() < 0.5})
+                out.append({"k": "sum", "label": "sp-" + lb, "copy": rng.random() < 0.5, "parts": [{"sparse": src}, {"sparse": src}]})
+        return out
+
+    @staticmethod
+    def _part(p):
+        return build_dense(p["dense"]) if "dense" in p else build_sparse(p["sparse"])
+
+    @staticmethod
+    def _part_ref(p):
+        return ref_dense(p["dense"]) if "dense" in p else ref_sparse(p["sparse"])
+
+    def evaluate(self, cases):
+        impls, reqs, specs = [], [], []
+        for c in cases:
+            def f(c=c):
+                if c["k"] == "kruskal":
+                    X = ttb.ktensor([_mat_lay(F_, lay) for F_, lay in zip(c["factors"], c["lays"])],
+                                    np.array(c["weights"], dtype=float), copy=c["copy"])
+                elif c["k"] == "tucker":
+                    X = ttb.ttensor(self._part(c["core"]), [_mat_lay(F_, lay) for F_, lay in zip(c["factors"], c["lays"])],
+                                    copy=c["copy"])
+                else:
+                    X = ttb.sumtensor([self._part(p) for p in c["parts"]], copy=c["copy"])
+                return {"full": read_dense(X.full()), "double": read_matrix(X.double()), "to_tensor": read_dense(X.to_tensor())}
+            with _quiet():
+                impls.append(call(f))
+            if c["k"] == "kruskal":
+                shape = [len(F_) for F_ in c["factors"]]
+                R = len(c["weights"])
+                spec = {"shape": shape, "data": [
+                    sum(c["weights"][r] * int(np.prod([c["factors"][n][i[n]][r] for n in range(len(shape))])) for r in range(R))
+                    for i in gen.all_subs(shape)]}
+                reqs.append({"op": "k_full", "K": {"weights": c["weights"], "factors": c["factors"]}})
+            elif c["k"] == "tucker":
+                core = self._part_ref(c["core"]).dense_j()
+                at = dense_at(core)
+                shape = [len(F_) for F_ in c["factors"]]
+                spec = {"shape": shape, "data": [
+                    sum(at(j) * int(np.prod([c["factors"][n][i[n]][j[n]] for n in range(len(shape))])) for j in gen.all_subs(core["shape"]))
+                    for i in gen.all_subs(shape)]}
+                reqs.append({"op": "c02_full", "X": {"kind": "tucker", "core": core, "factors": c["factors"]}})
+            else:
+                refs = [self._part_ref(p).dense_j() for p in c["parts"]]
+                spec = {"shape": refs[0]["shape"], "data": [sum(v) for v in zip(*[r["data"] for r in refs])]}
+                reqs.append({"op": "c02_full", "X": {"kind": "sum", "parts": [dict(r, kind="dense") for r in refs]}})
+            specs.append(spec)
+        models = drive(reqs)
+        out = []
+        for c, impl, m, spec in zip(cases, impls, models, specs):
+            tags = [c["k"], c.get("label", "-"), f"N{len(spec['shape'])}", "copy" if c["copy"] else "nocopy"]
+            mj = m.get("ok") if c["k"] == "kruskal" else (m.get("model") or {}).get("ok")
+            if mj is not None:
+                mj = {"shape": mj["shape"], "data": mj["data"]}
+            if "ok" not in impl:
+                out.append(Verdict("violation", "converting to dense raised", impl, m, spec, tags, True))
+                continue
+            r = impl["ok"]
+            bad = None
+            for k in ("full", "double", "to_tensor"):
+                if not deep_eq(r[k], spec):
+                    bad = bad or f"{c['k']} -> dense ({k}) is not the array the object denotes"
+            if not bad and (mj is None or not deep_eq(r["full"], mj)):
+                bad = f"{c['k']}.full differs from the proved model"
+            out.append(Verdict("violation" if bad else "ok", bad or "", impl, m, spec, tags, True))
+        return out
+
+
 def families():
-    return [DenseSparse(), TenmatFam(), SptenmatFam(), SptenmatCtor(), KruskalFull()]
+    return [DenseSparse(), TenmatFam(), SptenmatFam(), SptenmatCtor(), KruskalFull(),
+            DerivedDense(), DerivedSparse(), DirectMatrices(), DerivedHolders()]
